@@ -107,6 +107,7 @@ def components_of(nodes, edges):
 
 class H(Harness):
     ID = 'C13'
+    ANCHOR_FILES = ['epydemic/newmanziff.py', 'epydemic/networkexperiment.py']
     TIE_IMPORT = 'From EpyV Require Import Model.NewmanZiff Tie.C13.'
     CHECK_FN = 'EpyV.Tie.C13.check_case'
     QUICK_N = 420
